@@ -19,3 +19,63 @@ package coq
 //@   trusted_requires [operators only come from the translator's operator tables] OpPlus <= be.Op && be.Op <= OpShr
 //@   may_reject
 //@   noframe
+
+// ---- header and import paths (C08) -------------------------------------------------------------
+// cpath is the statement's path mapping: '.' and '-' become '_' (the two single-character
+// replacements, in either order); slashdot replaces '/' by '.'. path.Dir/Base/filepath.Join and
+// strings.ReplaceAll are uninterpreted; the two facts below about clean multi-component paths are
+// trusted (they are what "the logical path is the mapped import path" means for dir/base code).
+
+//@ ghost func repl(s string, a string, b string) string = pure(string, "strings.ReplaceAll", s, a, b)
+//@ ghost func cpath(p string) string = repl(repl(p, ".", "_"), "-", "_")
+//@ ghost func slashdot(p string) string = repl(p, "/", ".")
+//@ ghost func pdir(p string) string = pure(string, "path.Dir", p)
+//@ ghost func pbase(p string) string = pure(string, "path.Base", p)
+//@ ghost func multi(p string) bool
+//@ axiom path_split_logical: forall p string :: multi(p) ==> slashdot(p) == slashdot(pdir(p)) + "." + pbase(p)
+//@ axiom path_split_file: forall p string, ext string :: multi(p) ==> pure(string, "path/filepath.Join", pdir(p), pbase(p) + ext) == p + ext
+
+//@ assume func fmt.Sprintf (format, a)
+//@   ensures format == "From Goose Require %s.%s." && len(a) == 2 && typeis(a[0], string) && typeis(a[1], string) ==> result == "From Goose Require " + a[0].(string) + "." + a[1].(string) + "."
+//@   ensures format == "From Perennial.goose_lang.trusted Require Import %s.%s." && len(a) == 2 && typeis(a[0], string) && typeis(a[1], string) ==> result == "From Perennial.goose_lang.trusted Require Import " + a[0].(string) + "." + a[1].(string) + "."
+
+//@   ensures format == "From Perennial.goose_lang Require Import ffi.%s_prelude." && len(a) == 1 && typeis(a[0], string) ==> result == "From Perennial.goose_lang Require Import ffi." + a[0].(string) + "_prelude."
+
+//@ props C08
+
+//@ func pathToCoqPath
+//@   ensures [dots and dashes become underscores] result == cpath(p)
+//@ func ImportToPath
+//@   ensures [file path is the mapped package path plus .v] multi(cpath(pkgPath)) ==> result == cpath(pkgPath) + ".v"
+//@ ghost func coqdeclOf(d ImportDecl) string = pure(string, "coqdecl", d)
+//@ func (ImportDecl).CoqDecl
+//@   ghost_ensures result == coqdeclOf(decl)
+//@   ensures [Require line names the mapped import path] multi(cpath(decl.Path)) && !decl.Trusted ==> result == "From Goose Require " + slashdot(cpath(decl.Path)) + "."
+//@   ensures [trusted packages use the trusted namespace] multi(cpath(decl.Path)) && decl.Trusted ==> result == "From Perennial.goose_lang.trusted Require Import " + slashdot(cpath(decl.Path)) + "."
+//@   ensures [single-component import paths] !multi(cpath(decl.Path)) && pdir(cpath(decl.Path)) == "." && !decl.Trusted ==> result == "From Goose Require " + cpath(decl.Path) + "."
+
+// sort.Strings: a sorted permutation (duplicate-freedom and the set of elements are preserved)
+//@ ghost func sortedstr(s []string) bool = forall i int, j int :: s.off <= i && i < j && j < s.off + len(s) ==> elemat(s, i) <= elemat(s, j)
+//@ ghost func dupfree(s []string) bool = forall i int, j int :: s.off <= i && i < j && j < s.off + len(s) ==> elemat(s, i) != elemat(s, j)
+//@ ghost func member(s []string, x string) bool = exists i int :: s.off <= i && i < s.off + len(s) && elemat(s, i) == x
+//@ assume func sort.Strings (x)
+//@   modifies x
+//@   ensures sortedstr(x)
+//@   ensures old(dupfree(x)) ==> dupfree(x)
+//@   ensures forall i int :: x.off <= i && i < x.off + len(x) ==> old(member(x, elemat(x, i)))
+
+//@ func (ImportDecls).PrintImports
+//@   ensures_local [printed lines are sorted] sortedstr(ss)
+//@   ensures_local [each Require appears once] dupfree(ss)
+//@   ensures_local [exactly the Requires of the imports] forall k int :: 0 <= k && k < len(decls) ==> has(seen, coqdeclOf(decls[k]))
+// (that nothing else is printed is the loop invariant "every collected line is in seen" at loop exit
+// together with sort.Strings being a permutation; not restated after the sort)
+//@   ensures_local [everything collected is printed: as many distinct printed lines as distinct Requires] len(seen) == len(ss)
+//@   loop 1 invariant [every collected line is in seen] forall i int :: ss.off <= i && i < ss.off + len(ss) ==> has(seen, elemat(ss, i))
+//@   loop 1 invariant [as many collected lines as distinct lines seen] len(seen) == len(ss)
+//@   loop 1 invariant [nothing but locals is touched] modifies_only()
+//@   loop 1 invariant [only true is stored] forall v string :: has(seen, v) ==> seen[v]
+//@   loop 1 invariant [collected lines are distinct] dupfree(ss)
+//@   loop 1 invariant [imports so far are collected] forall k int :: 0 <= k && k <= rangeindex ==> has(seen, coqdeclOf(decls[k]))
+//@   loop 1 invariant [ss is private storage] ss.arr == 0 || fresh(ss)
+//@   loop 1 invariant [seen is the local map] seen != nil
